@@ -14,6 +14,7 @@ import Mathlib.Algebra.Order.Field.Rat
 import Mathlib.Tactic.Ring
 import Mathlib.Tactic.Linarith
 import Mathlib.Tactic.FieldSimp
+import Mathlib.Data.List.Induction
 
 namespace AITB.Tree
 
@@ -780,6 +781,16 @@ theorem Sim.ex_mono {m : Mdl} {H : Nat} {t t' : Tree} {p : Path} {s depth : Nat}
   | roll t p s depth st t1 n used fr _ _ _ hd _ => intro q hq; exact key hd q hq
   | deeper t p s depth st t1 t2 used fr _ _ _ hd _ ih => intro q hq; exact ih q (key hd q hq)
 
+theorem Sim.budget_eq {m : Mdl} {H : Nat} {t t' : Tree} {p : Path} {s depth : Nat} {used : List Step} {r : Rat}
+    (h : Sim m H t p s depth used t' r) : t'.budget = t.budget := by
+  induction h with
+  | stop t p s depth st t1 _ _ _ hd => obtain ⟨_, _, _, _, e5, _⟩ := descend_spec hd; exact e5
+  | roll t p s depth st t1 n used fr _ _ _ hd _ => obtain ⟨_, _, _, _, e5, _⟩ := descend_spec hd; exact e5
+  | deeper t p s depth st t1 t2 used fr _ _ _ hd _ ih =>
+    obtain ⟨_, _, _, _, e5, _⟩ := descend_spec hd
+    show t2.budget = t.budget
+    rw [ih]; exact e5
+
 /-! ### Whole calls and histories of calls -/
 
 /-- `Sims m H n t useds t'`: `n` simulations from the root, the i-th making exactly the calls `useds[i]` -/
@@ -817,11 +828,12 @@ theorem runSims_sound (m : Mdl) (H : Nat) : ∀ (n : Nat) (t : Tree) (log : List
 /-- everything the check relies on, for a tree between two public calls -/
 structure Inv (m : Mdl) (rmin rmax : Rat) (t : Tree) : Prop where
   stat : StatInv (fun _ => 0) t
-  rng : RngInv m rmin rmax t
+  /-- the range clause is the only one that needs the rewards bounded and the discount non-negative -/
+  rng : Bnd m rmin rmax → RngInv m rmin rmax t
   str : StrInv m t
   root : t.ex [] = true
 
-theorem Sims.inv {m : Mdl} {rmin rmax : Rat} (hb : Bnd m rmin rmax) {H n : Nat} {t t' : Tree} {useds : List (List Step)}
+theorem Sims.inv {m : Mdl} {rmin rmax : Rat} {H n : Nat} {t t' : Tree} {useds : List (List Step)}
     (h : Sims m H n t useds t') : 0 < H → H + m.overrun ≤ t.budget → Inv m rmin rmax t →
     Inv m rmin rmax t' ∧ t'.budget = t.budget ∧ useds.length = n ∧ ∀ u ∈ useds, u.length ≤ H + m.overrun := by
   induction h with
@@ -829,7 +841,8 @@ theorem Sims.inv {m : Mdl} {rmin rmax : Rat} (hb : Bnd m rmin rmax) {H n : Nat} 
   | succ n t t1 t2 s used r useds hs hS _ ih =>
     intro hH hbud hI
     have h1 := hS.statInv _ hI.stat
-    obtain ⟨h2, hb2⟩ := hS.rngInv hb hH (by simpa using hbud) hI.rng
+    have hb2 := hS.budget_eq
+    have h2 : Bnd m rmin rmax → RngInv m rmin rmax t1 := fun hb => (hS.rngInv hb hH (by simpa using hbud) (hI.rng hb)).1
     have h3 := hS.strInv hI.str hI.root hs
     have hlen := hS.length_le hH
     have hroot : t1.ex [] = true := by
@@ -843,5 +856,414 @@ theorem Sims.inv {m : Mdl} {rmin rmax : Rat} (hb : Bnd m rmin rmax) {H n : Nat} 
     rcases hu with rfl | hu
     · simpa using hlen
     · exact i4 u hu
+
+
+theorem mean_nil : mean [] = 0 := by simp [mean, sumQ]
+
+theorem Inv.fresh (m : Mdl) (rmin rmax : Rat) (parts : List Nat) (nA b : Nat) : Inv m rmin rmax (Tree.fresh parts nA b) := by
+  refine ⟨⟨fun q => ?_, fun q a => rfl, fun q a => ?_, fun q a _ => rfl⟩, fun _ q a x hx => ?_, ⟨fun q hq => ?_, fun q k hq => ?_, fun q k x hx => ?_⟩, rfl⟩
+  · show 0 = sumTo (fun _ => 0) _ + 0
+    rw [sumTo_zero _ (fun _ => rfl)]
+  · show (0 : Rat) = mean []
+    rw [mean_nil]
+  · simp [Tree.fresh] at hx
+  · simp only [Tree.fresh, beq_eq_false_iff_ne, ne_eq] at hq ⊢
+    simp [hq]
+  · simp [Tree.fresh] at hq
+  · simp [Tree.fresh] at hx
+
+theorem StatInv.of_nA {pend : Path → Nat} {t t1 : Tree} (h : StatInv pend t) (e1 : t1.nN = t.nN) (e2 : t1.aN = t.aN)
+    (e3 : t1.aV = t.aV) (e4 : t1.rets = t.rets) (hA : ∀ q, t1.nA q = t.nA q ∨ t.nA q = 0) : StatInv pend t1 := by
+  refine ⟨fun q => ?_, fun q a => ?_, fun q a => ?_, fun q a hqa => ?_⟩
+  · rw [e1, e2]
+    rcases hA q with hq | hq0
+    · rw [hq]; exact h.cnt q
+    · have hz : ∀ a, t.aN q a = 0 := fun a => h.out q a (by omega)
+      rw [sumTo_zero _ hz]
+      have := h.cnt q
+      rw [hq0] at this
+      simpa [sumTo] using this
+  · rw [e2, e4]; exact h.len q a
+  · rw [e3, e4]; exact h.avg q a
+  · rw [e2]
+    rcases hA q with hq | hq0
+    · exact h.out q a (by omega)
+    · exact h.out q a (by omega)
+
+theorem Inv.alloc {m : Mdl} {rmin rmax : Rat} {t t1 : Tree} {p : Path} {n : Nat} (h : Inv m rmin rmax t)
+    (ha : t.alloc p n = some t1) : Inv m rmin rmax t1 ∧ t1.budget = t.budget := by
+  obtain ⟨a1, a2, a3, a4, a5, a6, a7, _, _, a10⟩ := alloc_spec ha
+  refine ⟨⟨h.stat.of_nA a1 a2 a3 a4 (fun q => ?_), fun hb => (h.rng hb).of_eq a4 a5, h.str.of_eq a6 a7, by rw [a6]; exact h.root⟩, a5⟩
+  rcases a10 q with hq | ⟨_, hq⟩
+  · left; exact hq
+  · right; exact hq
+
+theorem Inv.withBudget {m : Mdl} {rmin rmax : Rat} {t : Tree} (h : Inv m rmin rmax t) (b : Nat) :
+    Inv m rmin rmax (t.withBudget b) ∧ b ≤ (t.withBudget b).budget := by
+  refine ⟨⟨h.stat.of_nA rfl rfl rfl rfl (fun _ => Or.inl rfl), fun hb q a x hx => ?_, h.str.of_eq rfl rfl, h.root⟩, ?_⟩
+  · obtain ⟨k, h1, h2, h3⟩ := h.rng hb q a x hx
+    refine ⟨k, h1, ?_, h3⟩
+    show k + q.length ≤ if t.budget < b then b else t.budget
+    split <;> omega
+  · show b ≤ if t.budget < b then b else t.budget
+    split <;> omega
+
+/-- subtree promotion keeps the invariant; the step budget of the promoted subtree is one less -/
+theorem Inv.reroot {m : Mdl} {rmin rmax : Rat} {t : Tree} (h : Inv m rmin rmax t) (k : Key) (hex : t.ex [k] = true) :
+    Inv m rmin rmax (t.reroot k) := by
+  refine ⟨⟨fun q => h.stat.cnt (k :: q), fun q a => h.stat.len (k :: q) a, fun q a => h.stat.avg (k :: q) a,
+    fun q a hqa => h.stat.out (k :: q) a hqa⟩, fun hb q a x hx => ?_, ⟨fun q hq => h.str.nex (k :: q) hq,
+    fun q k' hq => h.str.pre (k :: q) k' hq, fun q k' x hx => h.str.par (k :: q) k' x hx⟩, hex⟩
+  obtain ⟨j, h1, h2, h3⟩ := h.rng hb (k :: q) a x hx
+  refine ⟨j, h1, ?_, h3⟩
+  show j + q.length ≤ t.budget - 1
+  simp at h2; omega
+
+/-- the horizon and iteration count of an operation -/
+def Op.H : Op → Nat
+  | .fresh _ _ H _ => H
+  | .adv _ _ _ _ H _ => H
+def Op.iters : Op → Nat
+  | .fresh _ _ _ n => n
+  | .adv _ _ _ _ _ n => n
+
+theorem prepare_inv {m : Mdl} {rmin rmax : Rat} {t t0 : Tree} {op : Op} {H iters : Nat} (h : Inv m rmin rmax t)
+    (hp : prepare m t op = some (t0, H, iters)) :
+    Inv m rmin rmax t0 ∧ H + m.overrun ≤ t0.budget ∧ H = op.H ∧ iters = op.iters := by
+  cases op with
+  | fresh parts nA H' iters' =>
+    simp [prepare] at hp
+    obtain ⟨rfl, rfl, rfl⟩ := hp
+    exact ⟨Inv.fresh m rmin rmax parts nA _, le_refl _, rfl, rfl⟩
+  | adv a k parts nA H' iters' =>
+    simp only [prepare] at hp
+    split at hp
+    · split at hp
+      · rename_i _ hc
+        simp only [Bool.and_eq_true] at hc
+        split at hp
+        · simp at hp
+        · rename_i t1 hal
+          simp at hp
+          obtain ⟨rfl, rfl, rfl⟩ := hp
+          obtain ⟨i1, _⟩ := (h.reroot (a, k) hc.1).alloc hal
+          obtain ⟨i2, i3⟩ := i1.withBudget (H' + m.overrun)
+          exact ⟨i2, i3, rfl, rfl⟩
+      · simp at hp
+        obtain ⟨rfl, rfl, rfl⟩ := hp
+        exact ⟨Inv.fresh m rmin rmax parts nA _, le_refl _, rfl, rfl⟩
+    · simp at hp
+
+/-- **one public call** (`sampleAction` in either form) on any logged run: the invariant is kept, the log splits
+    into exactly `iterations` simulations and each of them makes at most `horizon + overrun` calls of the
+    generative model, the i-th on a state `i` transitions below the root -/
+theorem call_spec {m : Mdl} {rmin rmax : Rat} {t t' : Tree} {op : Op} {log rest : List Step}
+    (h : Inv m rmin rmax t) (hc : call m t op log = some (t', rest)) :
+    Inv m rmin rmax t' ∧ (0 < op.H → ∃ useds : List (List Step), log = useds.flatten ++ rest ∧ useds.length = op.iters ∧
+      ∀ u ∈ useds, u.length ≤ op.H + m.overrun) := by
+  unfold call at hc
+  split at hc
+  · simp at hc
+  · rename_i t0 H iters hp
+    obtain ⟨i0, hbud, rfl, rfl⟩ := prepare_inv h hp
+    split at hc
+    · rename_i hH
+      simp at hc
+      obtain ⟨rfl, rfl⟩ := hc
+      exact ⟨i0, fun h0 => by omega⟩
+    · rename_i hH
+      obtain ⟨useds, hl, hS⟩ := runSims_sound m _ _ _ _ _ _ hc
+      obtain ⟨i1, _, i3, i4⟩ := hS.inv (by omega) hbud i0
+      exact ⟨i1, fun _ => ⟨useds, hl, i3, i4⟩⟩
+
+/-- trees reachable by any history of public calls (any horizons, iteration counts, logged runs), starting from
+    a planner on which nothing has been called -/
+inductive Reach (m : Mdl) : Tree → Prop
+  | init : Reach m Tree.init
+  | call (t t' : Tree) (op : Op) (log rest : List Step) : Reach m t → call m t op log = some (t', rest) → Reach m t'
+
+theorem Reach.inv {m : Mdl} (rmin rmax : Rat) {t : Tree} (h : Reach m t) : Inv m rmin rmax t := by
+  induction h with
+  | init => exact Inv.fresh m rmin rmax [] 0 0
+  | call t t' op log rest _ hc ih => exact (call_spec ih hc).1
+
+
+/-! ## The property theorems -/
+
+/-- **node_count_is_sum.**  After any history of calls, on every node: visit count = sum over its action nodes. -/
+theorem node_count_is_sum {m : Mdl} {t : Tree} (h : Reach m t) (q : Path) : t.nN q = sumTo (t.aN q) (t.nA q) := by
+  have := (h.inv 0 0).stat.cnt q
+  simpa using this
+
+/-- **v_is_mean.**  After any history of calls every action estimate is the mean of the returns that were
+    sampled through the action (`rets`, see `Sim.records_return`), and its count is their number; an action that
+    was never tried has estimate 0. -/
+theorem v_is_mean {m : Mdl} {t : Tree} (h : Reach m t) (q : Path) (a : Nat) :
+    t.aN q a = (t.rets q a).length ∧ t.aV q a = mean (t.rets q a) ∧ (t.aN q a = 0 → t.aV q a = 0) := by
+  have hs := (h.inv 0 0).stat
+  refine ⟨hs.len q a, hs.avg q a, fun h0 => ?_⟩
+  have : t.rets q a = [] := List.eq_nil_of_length_eq_zero (by rw [← hs.len q a]; exact h0)
+  rw [hs.avg q a, this, mean_nil]
+
+/-- the calls of one simulation are consecutive transitions: each is made on the state the previous one
+    returned, so the i-th call is made on a state exactly `i` transitions below the simulation's root state -/
+def IsChain : Nat → List Step → Prop
+  | _, [] => True
+  | s, st :: l => st.s = s ∧ IsChain st.s1 l
+
+theorem Roll.chain {m : Mdl} {n s : Nat} {g : Rat} {used : List Step} {x : Rat} (h : Roll m n s g used x) : IsChain s used := by
+  induction h with
+  | zero => trivial
+  | term n s g st hs => exact ⟨hs, trivial⟩
+  | step n s g st used x hs _ _ _ _ ih => exact ⟨hs, ih⟩
+
+theorem Sim.chain {m : Mdl} {H : Nat} {t t' : Tree} {p : Path} {s depth : Nat} {used : List Step} {r : Rat}
+    (h : Sim m H t p s depth used t' r) : IsChain s used := by
+  induction h with
+  | stop t p s depth st t1 hs => exact ⟨hs, trivial⟩
+  | roll t p s depth st t1 n used fr hs _ _ _ hR => exact ⟨hs, hR.chain⟩
+  | deeper t p s depth st t1 t2 used fr hs _ _ _ _ ih => exact ⟨hs, ih⟩
+
+/-- **depth_le_horizon (as the code is: `_partial`).**  In every public call with horizon ≥ 1 the logged calls of
+    the generative model split into exactly `iterations` simulations, each a chain of consecutive transitions from
+    a root particle of length at most `horizon + overrun`, where `overrun = max 0 (rollOff + 1)` is 2 for the
+    rollout length `maxDepth_ - depth + 1` found in the source and 0 for `maxDepth_ - depth - 1`.
+
+    Full-strength statement (`depth_le_horizon` below): the same with `≤ horizon`. -/
+theorem depth_le_horizon_partial {m : Mdl} {t t' : Tree} {op : Op} {log rest : List Step} (h : Reach m t)
+    (hc : call m t op log = some (t', rest)) (hH : 0 < op.H) :
+    ∃ useds : List (List Step), log = useds.flatten ++ rest ∧ useds.length = op.iters ∧
+      ∀ u ∈ useds, u.length ≤ op.H + m.overrun :=
+  (call_spec (h.inv 0 0) hc).2 hH
+
+/-- **depth_le_horizon.**  Holds of the code once the rollout length is at most `maxDepth_ - depth - 1`. -/
+theorem depth_le_horizon {m : Mdl} (hoff : m.rollOff ≤ -1) {t t' : Tree} {op : Op} {log rest : List Step} (h : Reach m t)
+    (hc : call m t op log = some (t', rest)) (hH : 0 < op.H) :
+    ∃ useds : List (List Step), log = useds.flatten ++ rest ∧ useds.length = op.iters ∧ ∀ u ∈ useds, u.length ≤ op.H := by
+  obtain ⟨useds, h1, h2, h3⟩ := depth_le_horizon_partial h hc hH
+  refine ⟨useds, h1, h2, fun u hu => ?_⟩
+  have := h3 u hu
+  have h0 : m.overrun = 0 := by unfold Mdl.overrun; omega
+  omega
+
+/-- the same for the rollout offsets the translator finds in the source *now* (MCTS / POMCP) -/
+theorem depth_le_horizon_as_extracted {m : Mdl}
+    (hm : m.rollOff = (if m.pomcp then Gen.C19.pomcpRollOff else Gen.C19.mctsRollOff))
+    {t t' : Tree} {op : Op} {log rest : List Step} (h : Reach m t)
+    (hc : call m t op log = some (t', rest)) (hH : 0 < op.H) :
+    ∃ useds : List (List Step), log = useds.flatten ++ rest ∧ useds.length = op.iters ∧
+      ∀ u ∈ useds, u.length ≤ op.H + ((if m.pomcp then Gen.C19.pomcpRollOff else Gen.C19.mctsRollOff) + 1).toNat := by
+  have := depth_le_horizon_partial h hc hH
+  unfold Mdl.overrun at this
+  rw [hm] at this
+  exact this
+
+/-- each simulation of a call is a chain of consecutive transitions from a root particle -/
+theorem Sims.chains {m : Mdl} {H n : Nat} {t t' : Tree} {useds : List (List Step)} (h : Sims m H n t useds t') :
+    ∀ u ∈ useds, ∃ s, IsChain s u := by
+  induction h with
+  | zero => simp
+  | succ n t t1 t2 s used r useds _ hS _ ih =>
+    intro u hu
+    simp only [List.mem_cons] at hu
+    rcases hu with rfl | hu
+    · exact ⟨s, hS.chain⟩
+    · exact ih u hu
+
+theorem sumQ_bounds {l : List Rat} {lo hi : Rat} (h : ∀ x ∈ l, lo ≤ x ∧ x ≤ hi) :
+    lo * (l.length : Rat) ≤ sumQ l ∧ sumQ l ≤ hi * (l.length : Rat) := by
+  induction l with
+  | nil => simp [sumQ]
+  | cons x xs ih =>
+    obtain ⟨i1, i2⟩ := ih (fun y hy => h y (List.mem_cons_of_mem _ hy))
+    obtain ⟨h1, h2⟩ := h x (List.mem_cons_self)
+    simp only [sumQ, List.length_cons]
+    push_cast
+    constructor <;> nlinarith
+
+theorem mean_bounds {l : List Rat} {lo hi : Rat} (hne : l ≠ []) (h : ∀ x ∈ l, lo ≤ x ∧ x ≤ hi) :
+    lo ≤ mean l ∧ mean l ≤ hi := by
+  obtain ⟨h1, h2⟩ := sumQ_bounds h
+  have hpos : (0 : Rat) < (l.length : Rat) := by
+    have : 0 < l.length := List.length_pos_of_ne_nil hne
+    exact_mod_cast this
+  unfold mean
+  constructor
+  · rw [le_div_iff₀ hpos]; exact h1
+  · rw [div_le_iff₀ hpos]; exact h2
+
+/-- **v_in_return_range.**  After any history of calls, every estimate of an action that was tried, at a node
+    `|q|` levels below the root, lies within the returns achievable in the steps left below that level:
+    between `loR` and `hiR` of `budget - |q|`, where `budget` is `horizon + overrun` after a fresh call
+    (`call_fresh_budget`) and never less than that after promotions.  (`loR n`/`hiR n`: least / greatest discounted
+    sum over 1…n steps of rewards in `[rmin, rmax]`, a trajectory may stop early at a terminal state.) -/
+theorem v_in_return_range {m : Mdl} {rmin rmax : Rat} (hb : Bnd m rmin rmax) {t : Tree} (h : Reach m t) (q : Path) (a : Nat)
+    (hN : 0 < t.aN q a) :
+    loR m.gamma rmin (t.budget - q.length) ≤ t.aV q a ∧ t.aV q a ≤ hiR m.gamma rmax (t.budget - q.length) := by
+  have hI := h.inv rmin rmax
+  have hne : t.rets q a ≠ [] := by
+    intro he; have := hI.stat.len q a; rw [he] at this; simp at this; omega
+  rw [hI.stat.avg q a]
+  apply mean_bounds hne
+  intro x hx
+  obtain ⟨k, k1, k2, k3, k4⟩ := hI.rng hb q a x hx
+  have e1 := hiR_mono m.gamma rmax hb.g0 k (t.budget - q.length) k1 (by omega)
+  have e2 := loR_anti m.gamma rmin hb.g0 k (t.budget - q.length) k1 (by omega)
+  constructor <;> linarith
+
+/-- after `sampleAction(s / belief, horizon)` the step budget is exactly `horizon + overrun` -/
+theorem call_fresh_budget {m : Mdl} {t t' : Tree} {parts : List Nat} {nA H iters : Nat} {log rest : List Step}
+    (_h : Reach m t) (hH : 0 < H) (hc : call m t (Op.fresh parts nA H iters) log = some (t', rest)) :
+    t'.budget = H + m.overrun := by
+  unfold call at hc
+  simp only [prepare] at hc
+  split at hc
+  · omega
+  · obtain ⟨useds, _, hS⟩ := runSims_sound m _ _ _ _ _ _ hc
+    obtain ⟨_, i2, _, _⟩ := hS.inv (rmin := 0) (rmax := 0) hH (le_refl _) (Inv.fresh m 0 0 parts nA _)
+    rw [i2]; rfl
+
+/-- **v_in_return_range, in the words of the property** (holds of the code once the rollout length is repaired):
+    after a fresh call with horizon `H` every tried action's estimate at depth `|q|` is within the range of
+    returns achievable in the remaining `H - |q|` steps. -/
+theorem v_in_return_range_fresh {m : Mdl} {rmin rmax : Rat} (hb : Bnd m rmin rmax) (hoff : m.rollOff ≤ -1) {t t' : Tree}
+    {parts : List Nat} {nA H iters : Nat} {log rest : List Step} (h : Reach m t) (hH : 0 < H)
+    (hc : call m t (Op.fresh parts nA H iters) log = some (t', rest)) (q : Path) (a : Nat) (hN : 0 < t'.aN q a) :
+    loR m.gamma rmin (H - q.length) ≤ t'.aV q a ∧ t'.aV q a ≤ hiR m.gamma rmax (H - q.length) := by
+  have h' : Reach m t' := Reach.call t t' _ log rest h hc
+  have := v_in_return_range hb h' q a hN
+  rw [call_fresh_budget h hH hc] at this
+  have h0 : m.overrun = 0 := by unfold Mdl.overrun; omega
+  rw [h0] at this
+  simpa using this
+
+/-- **advance_keeps_subtree.**  The tree the simulations of `sampleAction(a, key, horizon)` start from is either
+    exactly the `(a, key)` subtree of the old tree (every count, value, particle list and descendant, re-rooted; the
+    root's action nodes are allocated if it had none) or a clean fresh root — the latter exactly when that child
+    does not exist (or, POMCP, holds no particle). -/
+theorem advance_keeps_subtree {m : Mdl} {t t0 : Tree} {a k : Nat} {parts : List Nat} {nA H iters H' iters' : Nat}
+    (hp : prepare m t (Op.adv a k parts nA H iters) = some (t0, H', iters')) :
+    (t.ex [(a, k)] = true ∧ (∀ q, t0.ex q = t.ex ((a, k) :: q) ∧ t0.nN q = t.nN ((a, k) :: q) ∧
+        t0.parts q = t.parts ((a, k) :: q) ∧ t0.aN q = t.aN ((a, k) :: q) ∧ t0.aV q = t.aV ((a, k) :: q) ∧
+        t0.rets q = t.rets ((a, k) :: q) ∧
+        (t0.nA q = t.nA ((a, k) :: q) ∨ (q = [] ∧ t.nA [(a, k)] = 0 ∧ t0.nA [] = nA))))
+    ∨ ((t.ex [(a, k)] = false ∨ (m.pomcp = true ∧ t.parts [(a, k)] = [])) ∧ t0 = Tree.fresh parts nA (H + m.overrun)) := by
+  simp only [prepare] at hp
+  split at hp
+  · split at hp
+    · rename_i _ hc
+      simp only [Bool.and_eq_true] at hc
+      split at hp
+      · simp at hp
+      · rename_i t1 hal
+        simp at hp
+        obtain ⟨rfl, _, _⟩ := hp
+        obtain ⟨a1, a2, a3, a4, _, a6, a7, _, a9, a10⟩ := alloc_spec hal
+        left
+        refine ⟨hc.1, fun q => ⟨?_, ?_, ?_, ?_, ?_, ?_, ?_⟩⟩
+        · show t1.ex q = _; rw [a6]; rfl
+        · show t1.nN q = _; rw [a1]; rfl
+        · show t1.parts q = _; rw [a7]; rfl
+        · show t1.aN q = _; rw [a2]; rfl
+        · show t1.aV q = _; rw [a3]; rfl
+        · show t1.rets q = _; rw [a4]; rfl
+        · show t1.nA q = _ ∨ _
+          rcases a10 q with h | ⟨rfl, h⟩
+          · left; rw [h]; rfl
+          · right; exact ⟨rfl, h, a9⟩
+    · rename_i _ hc
+      simp at hp
+      obtain ⟨rfl, _, _⟩ := hp
+      right
+      refine ⟨?_, rfl⟩
+      by_cases hex : t.ex [(a, k)] = true
+      · right
+        by_cases hpe : (m.pomcp && (t.parts [(a, k)]).isEmpty) = true
+        · simpa [Bool.and_eq_true, List.isEmpty_iff] using hpe
+        · exfalso; apply hc; simp [hex, hpe]
+      · left; simpa using hex
+  · simp at hp
+
+/-- a state follows the history `q` from the root particles: there is a path of possible transitions of the
+    generative model whose actions and observations (MCTS: next states) are those of `q` -/
+inductive Follows (m : Mdl) (roots : List Nat) : Path → Nat → Prop
+  | root (x : Nat) : x ∈ roots → Follows m roots [] x
+  | step (q : Path) (k : Key) (st : Step) : Follows m roots q st.s → m.valid st = true → st.a = k.1 → m.key st = k.2 →
+      Follows m roots (q ++ [k]) st.s1
+
+/-- **particles_consistent.**  After any history of calls (promotions and restarts included) every particle of
+    every node follows the node's action–observation history from a particle of the current root. -/
+theorem particles_consistent {m : Mdl} {t : Tree} (h : Reach m t) : ∀ (q : Path) (x : Nat), x ∈ t.parts q → Follows m (t.parts []) q x := by
+  have hs := (h.inv 0 0).str
+  intro q
+  induction q using List.reverseRecOn with
+  | nil => intro x hx; exact Follows.root x hx
+  | append_singleton q k ih =>
+    intro x hx
+    obtain ⟨st, h1, h2, h3, h4, h5⟩ := hs.par q k x hx
+    rw [← h4]
+    exact Follows.step q k st (ih st.s h1) h2 h3 h5
+
+
+/-! ### Witnesses: the hypotheses are satisfiable, and the source's rollout length breaks the horizon -/
+
+/-- a two-action model, every reward 1, discount 1/2, never terminal, rollout length as in the source (`+ 1`) -/
+def exM : Mdl := { pomcp := false, gamma := 1/2, rollOff := 1, rollGuard := false, numA := fun _ => 2,
+                   valid := fun st => st.r == 1 && !st.term }
+def exStep (a : Nat) : Step := { s := 0, a := a, s1 := 0, o := 0, r := 1, term := false }
+/-- horizon 2, two iterations: each simulation creates a leaf at depth 1 and rolls out 2 more steps -/
+def exLog : List Step := [exStep 0, exStep 0, exStep 1, exStep 0, exStep 1, exStep 0, exStep 0, exStep 1]
+def exOp : Op := Op.fresh [0] 2 2 2
+
+theorem exM_bnd : Bnd exM 1 1 := by
+  refine ⟨by norm_num [exM], fun st hv => ?_⟩
+  simp only [exM, Bool.and_eq_true, beq_iff_eq] at hv
+  rw [hv.1]; constructor <;> norm_num
+
+/-- test (evaluation on literals): the example log is a run, the hypotheses of all theorems above are satisfiable
+    by a non-trivial tree (root visited twice, both actions tried once) -/
+theorem ex_reach : ∃ t, Reach exM t ∧ t.nN [] = 2 ∧ t.aN [] 0 = 1 ∧ t.aN [] 1 = 1 ∧ t.ex [(0, 0)] = true := by
+  have h : (call exM Tree.init exOp exLog).any
+      (fun x => x.1.nN [] == 2 && x.1.aN [] 0 == 1 && x.1.aN [] 1 == 1 && x.1.ex [(0, 0)] && x.2.isEmpty) = true := by decide
+  rw [Option.any_eq_true] at h
+  obtain ⟨x, hx, hp⟩ := h
+  simp only [Bool.and_eq_true, beq_iff_eq] at hp
+  refine ⟨x.1, Reach.call Tree.init x.1 exOp exLog x.2 Reach.init (by rw [hx]), hp.1.1.1.1, hp.1.1.1.2, hp.1.1.2, hp.1.2⟩
+
+example : ∃ t, Reach exM t ∧ 0 < t.aN [] 0 := by
+  obtain ⟨t, h, _, h1, _⟩ := ex_reach
+  exact ⟨t, h, by omega⟩
+
+/-- **depth_le_horizon_counterexample** (the model shares the defect): with the rollout length of the source,
+    horizon 2, there is a run whose first simulation makes 4 calls of the generative model — the full-strength
+    bound `≤ horizon` fails, the `_partial` bound `horizon + 2` is attained. -/
+theorem depth_le_horizon_counterexample :
+    ∃ (t' : Tree) (r : Rat) (used : List Step), Sim exM 2 (Tree.fresh [0] 2 4) [] 0 0 used t' r ∧ used.length = 4 ∧ ¬ used.length ≤ 2 := by
+  have h : (simulate exM 2 3 (Tree.fresh [0] 2 4) [] 0 0 (exLog.take 4)).any (fun x => x.2.2.isEmpty) = true := by decide
+  rw [Option.any_eq_true] at h
+  obtain ⟨⟨t', r, rest⟩, hx, hp⟩ := h
+  obtain ⟨used, hu, hS⟩ := simulate_sound exM 2 _ _ _ _ _ _ _ _ _ hx
+  have hr : rest = [] := by simpa using hp
+  subst hr
+  have hlen : used.length = 4 := by
+    have := congrArg List.length hu
+    simp [exLog] at this
+    omega
+  exact ⟨t', r, used, hS, hlen, by omega⟩
+
+/-- **v_in_return_range_counterexample**: same run; all rewards are 1 and the discount 1/2, so no 2-step return
+    exceeds 3/2, but the recorded return is 1 + 1/2 + 1/4 + 1/8 = 15/8. -/
+theorem v_in_return_range_counterexample :
+    ∃ (t' : Tree) (r : Rat) (used : List Step), Sim exM 2 (Tree.fresh [0] 2 4) [] 0 0 used t' r ∧ hiR exM.gamma 1 2 < r := by
+  have h : (simulate exM 2 3 (Tree.fresh [0] 2 4) [] 0 0 (exLog.take 4)).map (fun x => x.2.1) = some (15/8) := by
+    simp [simulate, descend, rollout, exLog, exStep, exM, Tree.fresh, Tree.incN, Tree.create, Tree.update, Mdl.key, Mdl.rollLen]
+    norm_num
+  rw [Option.map_eq_some_iff] at h
+  obtain ⟨⟨t', r, rest⟩, hx, hp⟩ := h
+  obtain ⟨used, _, hS⟩ := simulate_sound exM 2 _ _ _ _ _ _ _ _ _ hx
+  have hr : r = 15/8 := by simpa using hp
+  refine ⟨t', r, used, hS, ?_⟩
+  rw [hr]
+  norm_num [hiR, exM]
 
 end AITB.Tree
